@@ -23,7 +23,7 @@ from elementpath.datatypes import AbstractDateTime, ArithmeticProxy, Duration, F
 from elementpath.xpath_nodes import XPathNode, ElementNode, DocumentNode
 
 from elementpath.exceptions import ElementPathTypeError
-from elementpath.helpers import node_position
+from elementpath.helpers import node_position, decimal_remainder
 from elementpath.xpath_context import XPathSchemaContext
 from elementpath.xpath_tokens import XPathToken, NameToken, VariableToken, \
     ContextItemToken, AsteriskToken, ParentShortcutToken
@@ -259,6 +259,10 @@ def evaluate__mod_operator(self: XPathToken, context: ta.ContextType = None) \
     except (ZeroDivisionError, decimal.InvalidOperation) as err:
         if op2 == 0:
             raise self.error('FOAR0001') from None
+        elif isinstance(op1, (int, decimal.Decimal)) and isinstance(op2, (int, decimal.Decimal)):
+            # the quotient has more digits than the precision of the context,
+            # but the remainder of exact operands is exact anyway
+            return decimal_remainder(op1, op2)
         raise self.error('FOAR0002', err) from None
 
 
